@@ -699,7 +699,7 @@ func refGapsClauses(res *verifsim.Result, keys []string, target, order string, g
 		covered = all
 	}
 	for _, g := range gaps {
-		if !related(g, target) {
+		if !isPfx(target, g) { // a gap is a part of the target that nothing covers: it lies inside it (a wider prefix claims keyspace nobody asked about)
 			res.Fail("gaps/inside-target", "C18/gaps/outside-target", "%s gap %q lies outside target %q (trie %v)", ctx, g, target, keys)
 			return
 		}
@@ -1033,7 +1033,7 @@ func refGapsClausesLong(res *verifsim.Result, keys []string, target, order strin
 			res.Fail("gaps/sorted", "C18/gaps/order", "%s gaps %v not sorted by %s", ctx, gaps, order)
 			return
 		}
-		if !related(gaps[i], target) {
+		if !isPfx(target, gaps[i]) {
 			res.Fail("gaps/inside-target", "C18/gaps/outside-target", "%s gap %q lies outside target %q (trie %v)", ctx, gaps[i], target, keys)
 			return
 		}
